@@ -643,7 +643,7 @@ func TestC01(t *testing.T) {
 		for i, u := range c01U {
 			names[i] = u.Name
 		}
-		col.Rapid(mat.Sub, env.PerShard(60000), func(t *rapid.T) {
+		col.Rapid(mat.Sub, env.PerShard(300000), func(t *rapid.T) {
 			c := &c01MatCase{Form: "filter", Name: rapid.SampledFrom(c01TwoArg).Draw(t, "f"), R: rapid.SampledFrom(names).Draw(t, "r"),
 				A: []string{rapid.SampledFrom(names).Draw(t, "a"), rapid.SampledFrom(names).Draw(t, "b")}}
 			if rapid.IntRange(0, 9).Draw(t, "three") == 0 {
@@ -672,7 +672,7 @@ func TestC01(t *testing.T) {
 			t.Fatalf("%s", v.Message)
 		}
 	}
-	col.Rapid(srcChk.Sub, env.PerShard(env.Pick(40000, 2000000)), func(t *rapid.T) {
+	col.Rapid(srcChk.Sub, env.PerShard(env.Pick(300000, 3000000)), func(t *rapid.T) {
 		g := &hostileGen{t: t, filters: si.Filters}
 		srcChk.Sub.Class("hostile-program")
 		runSrc(t, g.block(0), "hostile")
@@ -692,11 +692,11 @@ func TestC01(t *testing.T) {
 		}
 	}
 	srcChk.Sub.Class("truncation-every-byte")
-	col.Rapid(srcChk.Sub, env.PerShard(env.Pick(30000, 1500000)), func(t *rapid.T) {
+	col.Rapid(srcChk.Sub, env.PerShard(env.Pick(150000, 2000000)), func(t *rapid.T) {
 		srcChk.Sub.Class("mutation")
 		runSrc(t, mutate(t, corpus), "small")
 	})
-	col.Rapid(srcChk.Sub, env.PerShard(env.Pick(30000, 1500000)), func(t *rapid.T) {
+	col.Rapid(srcChk.Sub, env.PerShard(env.Pick(150000, 2000000)), func(t *rapid.T) {
 		srcChk.Sub.Class("dictionary-bytes")
 		runSrc(t, genBytes(t, si.Filters), "small")
 	})
